@@ -7,7 +7,7 @@ from ..engine import Ctx, LIB_CRATES
 from . import specconst
 from ..facts import callee, op_local, op_place
 from ..mirutil import Defs, find_path_edges
-from . import fieldrange
+from . import fieldrange, searchunwrap
 
 STATUS = "jxl_oxide::JxlImage::jpeg_reconstruction_status"
 RECON = "jxl_oxide::JxlImage::reconstruct_jpeg"
@@ -542,6 +542,7 @@ def main(pid, tier, repo=None):
         rule_markerstate(ctx)
         rule_layout(ctx)
         fieldrange.run(ctx, LIB_CRATES, only_crates=("jxl_jbr", "jxl_oxide"))
+        searchunwrap.run(ctx, ["jxl_jbr"], floor=20)
     specconst.run(ctx, pid)
     ctx.not_decided("byte equality of the reconstructed JPEG with the original (Huffman re-encoding, marker replay, integer chroma-from-luma, "
                     "padding bits): value-level")
@@ -552,4 +553,5 @@ def main(pid, tier, repo=None):
         "a complete jbrd box and after every piece of metadata the header says it needs has been probed (R-JBR-STATUS, path rules on MIR "
         "with per-variant constant propagation). (2) Hostile reconstruction data: the consistency checks exist as compare->error "
         "(R-JBR-REJECT), and no header field with a width-implied range reaches an overflow-checked operation, shift, division or "
-        "fixed-size array index it can break (R-FIELDRANGE, interval abstract interpretation; found D9-D11). Byte-exactness is not decided.")
+        "fixed-size array index it can break (R-FIELDRANGE, interval abstract interpretation; found D9-D11), and no predicate search over the "
+        "header's table lists is unwrapped (R-SEARCH-UNWRAP; found D13/D14). Byte-exactness is not decided.")
